@@ -722,7 +722,35 @@ func c03EveryWriteIsHandedOn(p *Prog, r *Report, rule string) {
 	}
 	n := 0
 	for _, owner := range [][2]string{{"pkg/inline/db", "db"}, {".", "tx"}, {"pkg/external/db", "db"}} {
-		for _, mk := range p.methodsOfWithEmbedded(owner[0], owner[1]) {
+		keys := p.methodsOfWithEmbedded(owner[0], owner[1])
+		if owner[0] == "." {
+			// the transaction handle of the root package, under whatever name and however it is split: every struct
+			// type there that has the three write methods
+			keys = nil
+			if pkg := p.Pkg("."); pkg != nil {
+				for _, tn := range pkg.Types.Scope().Names() {
+					o, ok := pkg.Types.Scope().Lookup(tn).(*types.TypeName)
+					if !ok {
+						continue
+					}
+					nt, ok := o.Type().(*types.Named)
+					if !ok {
+						continue
+					}
+					if _, isStruct := nt.Underlying().(*types.Struct); !isStruct {
+						continue
+					}
+					have := map[string]string{}
+					for i := 0; i < nt.NumMethods(); i++ {
+						have[nt.Method(i).Name()] = fkey(nt.Method(i))
+					}
+					if have["Set"] != "" && have["SetReader"] != "" && have["Delete"] != "" {
+						keys = append(keys, have["Set"], have["SetReader"], have["Delete"])
+					}
+				}
+			}
+		}
+		for _, mk := range keys {
 			fi := p.Funcs[mk]
 			if fi == nil || fi.Decl == nil || fi.Decl.Body == nil {
 				continue
